@@ -148,6 +148,10 @@ fn('approximate._ApproximateNeighbors._predict_contexts', cls='_LSHNearest', pro
             'same_item(result, j, %s)))' % LSH_ROW])
 
 # BaseMAB._parallel_predict is verified for Radius / KNearest receivers (same code); with the LSH row term the chunk
-# flattening obligation (post:rows) is beyond the solver's resource limit, so no contract is claimed for the LSH receiver:
-# row locality *within* a chunk is the contract above, independence of the chunking for LSH is left to the bounded leg.
+# flattening obligation (post:rows) is beyond the solver's resource limit, so for the LSH receiver the same contract is
+# ASSUMED (trusted, listed in the evidence): row locality *within* a chunk is the contract above, independence of the
+# chunking for LSH is exercised by the bounded leg.  The assumed contract lets the MAB facade be verified over LSH.
+parallel_predict_contract('_LSHNearest', LSH_ROW, trusted=True,
+                          note='trusted: same code as for Radius / KNearest receivers (proved there); the flattening '
+                               'obligation with the LSH row term exceeds the resource limit')
 
